@@ -76,7 +76,7 @@ class C12(Prop):
         "wq_no_lost_wakeup_reader", "wq_wake_delivers", "wq_no_overflow", "wq_run_reachable",
         "wq_reset_while_pending_loses_wakeup", "wq_unrepaired_remove_loses_block",
         "codec_unpack5_pack5", "codec_unpack2_pack2", "codec_unpack2_pack5", "codec_packet_count", "codec_eod_last",
-        "codec_unpack_chunk", "codec_pack_in_place", "codec_metadata_round_trip", "th_barrier", "th_counter", "th_no_lost_wakeup_master", "th_progress",
+        "codec_unpack_chunk", "codec_pack_in_place", "codec_unpack_in_place", "codec_metadata_round_trip", "th_barrier", "th_counter", "th_no_lost_wakeup_master", "th_progress",
         "loader_nload_largest_prefix", "loader_chunks_partition", "dsq_chunks_are_the_database", "pipe_order", "pipe_eof_after_all", "pipe_lanes", "pipe_no_deadlock", "pipe_no_lost_wakeup", "pipe_buffers")]
     claimed = True
     level_text = ("Theorems for every schedule of one reader and any number of workers (one atomic step per mutex-protected region, spurious wake-ups allowed): "
@@ -88,8 +88,7 @@ class C12(Prop):
                   "no deadlock within a watchdog).")
     level_note = ("Trusted: Lean kernel + propext/Classical.choice/Quot.sound; fidelity of the hand models is checked by differential run / trace validation, not proved; "
                   "pthread semantics and data-race freedom are assumed (atomic step per critical section); caller contract of the queue stated as `Admissible`. "
-                  "Not theorems: the byte-level in-place "
-                  "unpacking overlap inside smem (covered by ASan + tight-chunk content comparison; in-place PACKING is a theorem), esl_dsqdata_Open/Write file "
+                  "Not theorems: the byte-level memory model of smem (the in-place pack / unpack safety theorems are stated on read/write positions), esl_dsqdata_Open/Write file "
                   "handling, the esl_workqueue_queuelock_* variants (unfinished code, not covered).")
     diverge_is_violation = True
     fault_is_output = True      # a sanitizer abort is an output line; it must coincide with the model's `fault`
